@@ -86,6 +86,7 @@ pub fn natives() -> Vec<Spec> {
 		out.push(Spec::Native(Native::ZstAround(k, 2, 0)));
 		out.push(Spec::Native(Native::VecsNew(k)));
 		out.push(Spec::Native(Native::VecsRefs(k)));
+		out.push(Spec::Native(Native::OwnedDescIn(k, 2)));
 	}
 	out.push(Spec::Native(Native::BoxedTupVecs(vec![1, 0], vec![2, 0])));
 	out.push(Spec::Native(Native::BoxedTupVecs(vec![], vec![])));
@@ -109,6 +110,11 @@ pub fn natives() -> Vec<Spec> {
 		for n in 0..=3 {
 			out.push(Spec::Native(Native::MutRefs(which, n)));
 		}
+		for n in 1..=7 {
+			out.push(Spec::Native(Native::TupN(which, n)));
+		}
+		out.push(Spec::Native(Native::ZstOwned(which, true)));
+		out.push(Spec::Native(Native::ZstOwned(which, false)));
 	}
 	out
 }
